@@ -316,7 +316,7 @@ def inline_kinds(p, cf, pairs, depth):
         _INLINE[cf.uid] = out
         return out
     g = CFG(cf)
-    paths = sc.returning_paths(cf, g, cap=48)
+    paths = sc.returning_paths(cf, g, cap=int(os.environ.get("PZ_INLINE_PATHS", "160")))
     if not paths:
         return None
     out = []
